@@ -15,7 +15,7 @@ class C10(vlib.Check):
     group = 'fmt'
     per_case_timeout = 10
     rule = ('exhaustive: all strings over the 14-symbol alphabet { } _ . & 0 1 9 + - sp x c Z of length <= 4 plus all of length 5 starting with "{" (quick) / '
-            'all of length <= 5 + 150k seeded of length 6 starting with "{" (thorough), each with no argument and with 1-2 arguments (strings that could hit the '
+            'all of length <= 5 + 400k seeded of length 6 starting with "{" (thorough), each with no argument and with 1-2 arguments (strings that could hit the '
             'documented character-padding assertion get a text argument, a bounded sample of them an integer so that the '
             'abort itself is observed); directed: lookahead sites at the end of the string ("{_", "{.", "{&", "{", "}", '
             '"{{", "{1"), widths/indices around int overflow (2^31, 2^32+1, 2^63, 20 digits), &0, &N beyond the arguments, '
@@ -25,6 +25,8 @@ class C10(vlib.Check):
             'to_string, which the model predicts as ABORT Huge). Compared by outcome class; which of bad_format / '
             'out_of_range is raised when both apply is not compared. non-trivial = format contains "{" or "}"; '
             'distinct = distinct case line')
+    partial = ('parser_outcomes lists one outcome the property does not: the ST_HUGE_BUFFER_SIZE assertion for an output of '
+               '2^28 bytes or more (theorems huge_only_big, parser_outcomes_strict_refuted; known finding huge-output-assert)')
     modelled_not_verified = (
         'strtol(.,&end,10): Fmt/Strtol.v from the C standard, validated against glibc by the strtol op on every run',
         'floating-point text is the C library\'s (oracle: OCaml Printf -> printf); C10 only uses that it is non-empty',
@@ -101,7 +103,7 @@ class C10(vlib.Check):
             for tup in itertools.product(ALPHA14, repeat=4):
                 yield from with_args(b'{' + b''.join(tup))
         if not quick:
-            for _ in range(150000):
+            for _ in range(400000):
                 f = b'{' + b''.join(rng.choice(ALPHA14) for _ in range(5))
                 yield from with_args(f)
         # ---- seeded strings over all 255 non-zero bytes, cut at every position
@@ -130,12 +132,15 @@ class C10(vlib.Check):
                 yield fmt_case('string', mode, c, args)
 
     def same(self, case, impl, model):
-        ic, mc = outcome_class(impl), outcome_class(model)
         if case.startswith('strtol'):
             return impl == model
+        ic, mc = outcome_class(impl), outcome_class(model)
         if ic == mc:
             return True
-        return False
+        # which of the two is raised when a format is both malformed and short of arguments is not
+        # constrained (the unambiguous cases are decided by `allowed` against the Spec)
+        both = ('THROW bad_format', 'THROW out_of_range')
+        return ic in both and mc in both
 
     def allowed(self, case, impl, spec):
         if case.startswith('strtol'):
@@ -151,9 +156,6 @@ class C10(vlib.Check):
             except ValueError:
                 pass
         return None
-
-    def same_relaxed(self, spec):
-        return spec.startswith('ALLOW') and 'bad_format' in spec and 'out_of_range' in spec
 
     def nontrivial(self, case, impl):
         t = case.split()
